@@ -98,6 +98,12 @@ def run(res, drv, tier, seed):
         if not prob['zeros']:
             continue
         engine = ['MD', 'RDA', 'IG'][ci % 3]
+        if ci % 4 == 1:
+            # pairwise measurements along a random tree over shuffled attributes, zeros that rule out one value of a separator attribute:
+            # RDA / IG rebuild the parameters from the marginals clique by clique, in the order maximal_cliques() lists them
+            prob = estgen.gen_tree_problem(r, kill_value=True)
+            engine = r.choice(['RDA', 'IG', 'MD'])
+            res.count('tree-shaped measurement set with a dead separator value')
         warm = r.random() < 0.5
         hist = r.randint(1, 3)
         iters = r.choice([1, 5, 40])
